@@ -343,7 +343,7 @@ impl Gen {
     }
 
     pub fn inst_valid(&mut self) -> InstantiateMsg {
-        let precision = *self.rng.pick(&[0u32, 0, 0, 1, 2, 2, 3, 6, 18]);
+        let precision = *self.rng.pick(&[0u32, 0, 0, 1, 2, 2, 3, 6, 18, 9, 10, 12, 2, 0]);
         let mult = *self.rng.pick(&[1u128, 1, 1, 2, 5, 10, 100]);
         let increment = 10u128.pow(precision) * mult;
         let mut quotes: Vec<String> = QUOTES.iter().map(|s| s.to_string()).collect();
@@ -411,6 +411,11 @@ impl Gen {
                 5 => {
                     let p = self.rng.below(21) as u32;
                     m.price_precision = Uint128::new(p as u128);
+                    if self.rng.pct(25) {
+                        // precisions whose low 8 / 16 / 32 / 64 bits look legal (a narrowing cast before the bound)
+                        let hi = *self.rng.pick(&[1u128 << 8, 1 << 16, 1 << 32, 3 << 32, 1 << 64, 1 << 127, u128::MAX - 18]);
+                        m.price_precision = Uint128::new(hi.saturating_add(p.min(18) as u128));
+                    }
                     let pw = 10u128.pow(p.min(25));
                     let k = 1 + self.rng.below(12) as u128;
                     m.size_increment = Uint128::new(match self.rng.below(6) {
@@ -692,6 +697,18 @@ impl Gen {
         if self.rng.pct(12) {
             price = respell(&mut self.rng, &price);
         }
+        if self.rng.pct(6) {
+            // a price one digit finer than the price precision, within half a tick of a limit price
+            let prec = (info.price_precision.u128() as u32).min(18);
+            if let Some(d) = D::parse(&price) {
+                if d.s <= prec {
+                    let k = 1 + self.rng.below(4) as u128;
+                    let m10 = d.m * 10u128.pow(prec + 1 - d.s);
+                    let m2 = if self.rng.pct(50) { m10 + k } else { m10.saturating_sub(k) };
+                    price = D { m: m2, s: prec + 1 }.render();
+                }
+            }
+        }
         let sc = D::parse(&price).map(|d| d.s).unwrap_or(0);
         let unit = 10u128.pow(sc.min(30));
         let mut size = match self.rng.below(10) {
@@ -814,10 +831,18 @@ impl Gen {
         let mut battrs = None;
         if r.pct(35) {
             let mut l: Vec<String> = info.approvers.iter().map(|a| a.to_string()).collect();
-            match r.below(5) {
+            match r.below(6) {
                 0 => l.push(r.pick(&ACCTS).to_string()),
                 1 => {
                     l.pop();
+                }
+                5 => {
+                    // same length, only known addresses, one of them dropped (a repeated entry takes its place)
+                    if l.len() > 1 {
+                        let k = r.below(l.len() as u64) as usize;
+                        let j = (k + 1) % l.len();
+                        l[k] = l[j].clone();
+                    }
                 }
                 2 => l.reverse(),
                 3 => l = vec![],
@@ -827,11 +852,18 @@ impl Gen {
         }
         if r.pct(25) {
             let mut l: Vec<String> = info.executors.iter().map(|a| a.to_string()).collect();
-            match r.below(5) {
+            match r.below(6) {
                 0 => l.push(r.pick(&ACCTS).to_string()),
                 1 => {
                     if l.len() > 1 {
                         l.remove(0);
+                    }
+                }
+                5 => {
+                    if l.len() > 1 {
+                        let k = r.below(l.len() as u64) as usize;
+                        let j = (k + 1) % l.len();
+                        l[k] = l[j].clone();
                     }
                 }
                 2 => l.reverse(),
@@ -1154,6 +1186,13 @@ impl Gen {
                 for q in self.queries(w) {
                     w.step(&q);
                     steps.push(q);
+                }
+            }
+            // request kinds the model does not know (none on the pinned tree)
+            if !crate::unknown::unknown_kinds().is_empty() && self.rng.pct(35) {
+                for u in crate::unknown::requests(&mut self.rng, w, 3) {
+                    w.step(&u);
+                    steps.push(u);
                 }
             }
         }
